@@ -113,13 +113,36 @@ def run(ctx):
                                 mism.append(cr.mismatches[-1])
                             if d2 is None or d2["error_num"] != 0 or d2["data"] != b"secret-payload":
                                 fails.append({"why": "a refused decode consumed the credential: authorized decode afterwards gives %s"
-                                                     % (d2 and (d2["error_num"], d2["error_str"])), **case})
+                                                     % (d2 and (d2["error_num"], d2["error_str"]),), **case})
                     else:
                         want = {"fresh": 0, "expired": 15, "rewound": 16, "decoded": 17}[state]
                         if d["error_num"] != want:
                             fails.append({"why": "client uid=%d gid=%d IS authorized for (auth_uid=%d, auth_gid=%d) but a %s credential "
                                                  "gave error %d (%s), expected %d" % (cu, cg, au, ag, state, d["error_num"], d["error_str"], want), **case})
                     ctx.sample(case)
+    # --- no group map at all (the scan of the group database keeps failing from the start): nobody is a supplementary
+    #     member of anything; a gid restriction must still be enforced on the primary gid
+    flag = os.path.join(ctx.tmp, "nss-fail")
+    open(flag, "w").close()
+    cf = credcorr.CredRig(ctx, exe, orc, nss_db=db, tag="c04nomap", nthreads=2)
+    cf.d.env["VERIF_NSS_FAIL"] = flag
+    if cf.ok:
+        cf.d.stop(); cf.d.start()
+        time.sleep(0.3)
+        for (cu, cg, ag, want) in ((3001, 50, 700, 18), (3002, 700, 700, 0), (0, 0, 700, 18), (3999, 53, 701, 18)):
+            r, _ = cf.encode_both(uid=4242, gid=4243, auth_gid=ag, data=b"gid restricted, no map")
+            if r is None or r["error_num"] != 0:
+                continue
+            d, m, diff = cf.decode_both(r["data"], uid=cu, gid=cg, members=())
+            ctx.count(("nomap", cu, cg, ag))
+            dist["no-group-map"] = dist.get("no-group-map", 0) + 1
+            if diff:
+                mism.append(cf.mismatches[-1])
+            if d is None or d["error_num"] != want:
+                fails.append({"why": "no group map could be loaded (database scan fails): client uid=%d gid=%d, credential restricted to gid %d: "
+                                     "error %s, expected %d" % (cu, cg, ag, d and d["error_num"], want), "client": (cu, cg), "auth_gid": ag})
+        os.unlink(flag)
+        cf.stop()
     rc, rep = cr.stop()
     if rep.strip():
         ctx.violation("sanitizer report from the daemon during C04 cases", {"report": rep[:3000]}, found_input=False)
